@@ -9,8 +9,14 @@ KT = os.path.join(VERIF, ".kt")
 REPO = "/repo"
 
 BUILD_FLAGS = {
-    "small": "--cfg zlink_verif --cfg zlink_verif_small",
-    "prod": "--cfg zlink_verif",
+    "small": "--cfg zlink_verif --cfg zlink_verif_small",     # BUFFER_SIZE=8, MAX_BUFFER_SIZE=32
+    "mid": "--cfg zlink_verif --cfg zlink_verif_small",       # BUFFER_SIZE=128, MAX_BUFFER_SIZE=128 (one step, no growth)
+    "prod": "--cfg zlink_verif",                              # 256 / 100 MiB
+}
+BUILD_ENV = {
+    "small": {"ZLINK_VERIF_STEP": "8", "ZLINK_VERIF_MAX": "32"},
+    "mid": {"ZLINK_VERIF_STEP": "128", "ZLINK_VERIF_MAX": "128"},
+    "prod": {},
 }
 
 STUBS = [
@@ -18,7 +24,7 @@ STUBS = [
     "alloc::fmt::format -> String::new()",
     "tracing_core::metadata::LevelFilter::current -> OFF (all trace!/warn! call sites short-circuit)",
     "serde_json::error::parse_line_col -> None (decorates error positions only)",
-    "crate memchr replaced via [patch.crates-io] by /verif/vendor/memchr-naive (loop implementation; the real crate dispatches to SIMD through a function pointer)",
+    "crate memchr replaced via [patch.crates-io] by /verif/vendor/memchr-naive (loop implementation; the real crate dispatches to SIMD through a function pointer); under the solver its memrchr/memchr_iter report no match (only serde_json's error line/column computation calls them)",
 ]
 
 
@@ -27,6 +33,7 @@ def base_env(build, extra_cfg=""):
     env["CARGO_NET_OFFLINE"] = "true"
     env["RUST_BACKTRACE"] = "0"
     env["RUSTFLAGS"] = BUILD_FLAGS[build] + extra_cfg
+    env.update(BUILD_ENV[build])
     env.pop("CARGO_TARGET_DIR", None)
     return env
 
